@@ -15,6 +15,9 @@ PROPS = {
     "C19": {"level": "proof", "assumptions": ["A-py", "A-regex"]},
     "C09": {"level": "proof", "assumptions": ["A-py", "A-regex", "A-rank"]},
     "C18": {"level": "proof", "assumptions": ["A-py", "A-regex"]},
+    "C10": {"level": "proof", "assumptions": ["A-py", "A-regex", "A-lib"]},
+    "C13": {"level": "proof", "assumptions": ["A-py", "A-lib"]},
+    "C14": {"level": "proof", "assumptions": ["A-py", "A-lib", "A-real"]},
 }
 
 TECHNIQUE = "contract-based deductive verification (sidecar pre/postconditions, frames, invariants on the real source; own VC generation; z3/cvc5)"
@@ -33,6 +36,9 @@ _T = {
  "C07": ("range rules: ends as written, ordering guards, 12h / next-day wrap, 0 < length <= 24h; auxiliary inductive invariant on date-less clock ranges", "A-dateutil, A-py." + BR),
  "C08": ("duration rules: amount and unit as written; date + N units by calendar arithmetic; N-days consistency", "A-dateutil, A-regex, A-py." + BR),
  "C09": ("span clause only: rule wrapper and latent post-processing keep an exact span (span-covers-arguments, span-preserved)", "resolution invariance under inert context is relational through regex engine + ranking: not covered (DESIGN 6)."),
+ "C10": ("_get_labels executed on abstract text: result is the order-preserving map m -> m.replace('#','') over re.findall(P, txt); RegLan lemmas: every valid hashtag is found whole by the finding pattern and removed whole by the stripping pattern, which is the same constant on both paths and touches only '#'-words; ctparse() no-match branch computes subject and labels by the very pipeline term the prefix of _ctparse computes (terms compared structurally)", "text processing by re/regex/str methods is uninterpreted (A-regex, A-lib); 'drops every word inside a match the resolution was built from' and invariance of the resolution under hashtags are not covered (relational, through the regex engine and ranking)."),
+ "C13": ("timers.timeout/_tt executed with a ghost list of clock reads: timeout 0 never reads the clock nor raises, otherwise exactly one read and raise iff now-start > timeout; ghost work counter over _ctparse/_regex_stack: every loop over an N-sized collection starts each iteration with the deadline check, work between checks is independent of N; all check sites inside the try whose handler only ends the stream; check result unused (prefix lemma); ctparse()/ctparse_gen forward timeout unchanged", "work = from_regex_matches/apply_rule/score/score_final calls and the N-sized collections are sidecar annotations; real clock assumed monotone; counter-models replayed with a virtual clock patched into ctparse.timers.perf_counter."),
+ "C14": ("ctparse() executed on streams of 0..3 symbolic candidates: result is a stream element with maximal score, empty resolution iff empty stream, every option forwarded unchanged to the stream (also documented defaults); ctparse_gen yields every candidate of _ctparse in order", "selection is proved for streams of up to 3 elements (bounded: list.sort executed as a stable insertion sort with symbolic keys), floats as reals; emission-dedup invariant of _ctparse: see C14 emission unit; finiteness of NB scores: C16."),
  "C18": ("the real Artifact.__eq__/__hash__ executed on two symbolic values of every pair of kinds: == iff same kind and value (spans free), equal values hash equal; the real __str__/nb_str/from_str/parse_nb_string executed on structured strings: parse(text form) is value-equal; Interval round trip modular over the Time contracts", "A-py (str.format of non-negative ints, int() of digit strings, tuple hashing by value); _TIME_REGEX.match is executed by a small matcher over structured strings (A-regex for the real engine); injectivity of the text form is the logical corollary of the round trip (not a separate obligation); 'every gold string of the bundled dataset' is data, not covered."),
  "C20": ("gluing rules keep the date of the date part and the clock of the clock part, both orders", "A-py." + BR),
  "C12": ("frame obligations: no rule body stores into an object that existed before the call", "A-py, A-noalias; threads / hash seed / set order are not expressible as contracts (not covered)."),
